@@ -224,6 +224,7 @@ def main():
     ap.add_argument("--seed", type=int, default=int(os.environ.get("VERIF_SEED", "1") or 1))
     ap.add_argument("--replay")
     ap.add_argument("--keep", action="store_true")
+    ap.add_argument("--no-evidence", action="store_true", help="do not rewrite evidence/<ID>.json nor write replays/ (self-tests against scratch copies)")
     a = ap.parse_args()
     pid, tier = a.pid, a.tier
     t0 = time.time()
@@ -295,8 +296,9 @@ def check(a, pid, tier, work, t0):
     replay_n = [0]
 
     def write_replay(rec, code, kind, extra_info=None):
-        os.makedirs(os.path.join(VERIF, "replays"), exist_ok=True)
-        path = os.path.join(VERIF, "replays", "%s-%d-%d.json" % (pid, a.seed, replay_n[0]))
+        rdir = os.path.join(VERIF, "replays", "selftest") if a.no_evidence else os.path.join(VERIF, "replays")
+        os.makedirs(rdir, exist_ok=True)
+        path = os.path.join(rdir, "%s-%d-%d.json" % (pid, a.seed, replay_n[0]))
         replay_n[0] += 1
         body = {"property": pid, "kind": kind, "code": code, "seed": a.seed, "tier": tier,
                 "spec": rec["spec"], "observed": rec["observed"],
@@ -437,8 +439,9 @@ def check(a, pid, tier, work, t0):
         "wall_s": round(wall, 2),
         "violations": len(violations),
     }
-    os.makedirs(os.path.join(VERIF, "evidence"), exist_ok=True)
-    json.dump(ev, open(os.path.join(VERIF, "evidence", pid + ".json"), "w"), indent=1)
+    if not a.no_evidence:
+        os.makedirs(os.path.join(VERIF, "evidence"), exist_ok=True)
+        json.dump(ev, open(os.path.join(VERIF, "evidence", pid + ".json"), "w"), indent=1)
 
     for sig, (desc, n) in sorted(known_hits.items()):
         print("KNOWN-FINDING: property=%s sig=%s %s (%d cases this run)" % (pid, sig, desc, n))
